@@ -51,7 +51,7 @@ BF = 'connection.BitField'
 def declare_pending_message(E):
     """field maps of PendingMessage objects held in symbolic queues"""
     E.field(PM, 'seq', E.kind('int', SEQ), inv=lambda t: z3.And(t >= 0, t <= S.M))
-    E.field(PM, 'type', E.kind('enum', PTYPE), inv=lambda t: z3.And(t >= 0, t <= 7))
+    E.field(PM, 'type', E.kind('enum', PTYPE), inv=lambda t: z3.And(t >= 1, t <= 7))   # QueueInv: never UNKNOWN (0)
     # QueueInv: what send()/_send_type put into the queues: bytes payloads no longer than one datagram can carry
     E.field(PM, 'payload', E.kind('bytes'), inv=lambda t: ops.blen(t) <= 65535)
     E.field(PM, 'callback', E.kind('fn'))
